@@ -171,6 +171,9 @@ def gen_yaml(which):
             _A("GD*6.001", "GD*6", [["GDP", "e2+"]]),
             _A("GD*7.001", "GD*7", [["GD", "deletion:e2"]]),
             _A("GD*8.001", "GD*8", [[30, "SNP5", "rs5", "functional"]]),  # last base of e1
+            _A("GD*9.001", "GD*9", [[50, "DELINS1", "rs6", "functional"]]),  # delXYinsZ
+            _A("GD*10.001", "GD*10", [[1, "SNP6", "rs7", "functional"]]),   # first RefSeq base
+            _A("GD*11.001", "GD*11", [[120, "SNP7", "rs8", "functional"]]),  # last RefSeq base
         ])
         y = make_db("GD", 120, 53, regions, [(11, 31), (41, 61), (71, 91)],
                     {"hg19": ("5", 8001, "+", "M120", -2000),
@@ -191,6 +194,8 @@ def gen_yaml(which):
             return f"{b}>{other[b]}"
         if sym.startswith("INS"):
             return "ins" + other[b] + other2[b]
+        if sym.startswith("DELINS"):
+            return "del" + seq[pos - 1:pos + 1] + "ins" + other[seq[pos - 1]]
         if sym.startswith("DEL"):
             return "del" + seq[pos - 1:pos + 1]
         if sym.startswith("MNP"):
